@@ -252,8 +252,12 @@ USER_OPS = ["create_group", "set_dataset", "delete", "set_attr", "del_attr", "co
 def gen_op(rng: random.Random, view: List[Dict[str, Any]], *, depth: int = 3,
            values: List[str] = None, weights: Dict[str, float] = None,
            allow_copy_into_self: bool = True, attr_values: List[str] = None,
-           attr_keys: List[str] = None) -> Dict[str, Any]:
-    """Pick an operation with arguments drawn from the current view (mostly valid)."""
+           attr_keys: List[str] = None, graves: List[List[str]] = None) -> Dict[str, Any]:
+    """Pick an operation with arguments drawn from the current view (mostly valid).
+
+    graves: paths that existed earlier in the history and do not exist now; new nodes are created
+    at or below them with raised probability (re-creation on top of deletion markers).
+    """
     values = values or ["v1", "v2", "v3", "v4", "v5"]
     # attribute values: non-UTF-8 byte strings are excluded (known finding: IH5 copies
     # attributes through Python values and h5py hands such values out as surrogate-escaped str)
@@ -271,6 +275,15 @@ def gen_op(rng: random.Random, view: List[Dict[str, Any]], *, depth: int = 3,
     datasets = [p for p, n in nodes.items() if n["k"] == "d"]
 
     def fresh(maxextra=2):
+        if graves and rng.random() < 0.3:
+            gr = [g_ for g_ in graves if tuple(g_) not in nodes and tuple(g_[:-1]) in nodes and nodes[tuple(g_[:-1])]["k"] == "g"]
+            if gr:
+                p = list(rng.choice(gr))
+                for _ in range(rng.randint(0, maxextra)):
+                    if len(p) >= depth:
+                        break
+                    p.append(rng.choice(ABSTRACT_KEYS))
+                return p
         g = rng.choice(groups)
         p = list(g)
         for _ in range(rng.randint(1, maxextra)):
